@@ -34,6 +34,21 @@ theorem take_never_dangling (ops : List GcOp) :
     rw [current_mark_walks.1]; exact GcChan.run_inv maxQCapacity ops
   exact ⟨h.taken_live, h.queued_live, h.fifo⟩
 
+/-- **waiting_fiber_never_freed** (no lost wake-up through the collector): the same machine read as a pending-reader /
+    pending-writer queue - `give f` = fiber `f` registers (janet_q_push of its JanetChannelPending entry; it is running, hence
+    allocated), `take` = the entry is popped to wake or skip its fiber, `collect roots` = a collection in which the channel
+    marks what janet_chanat_mark_fq visits.  For every history: every fiber whose entry is popped is still allocated, every
+    fiber still registered is allocated, and the entries come out in registration order. -/
+theorem waiting_fiber_never_freed (ops : List GcOp) :
+    let s := GcChan.run currentMarkPending maxQCapacity ops
+    (∀ p ∈ s.taken, p.2 = true) ∧ (∀ f ∈ s.q.toList, s.live f = true) ∧
+    s.taken.map Prod.fst ++ s.q.toList = s.given := by
+  intro s
+  have h : s.Inv := by
+    show (GcChan.run currentMarkPending maxQCapacity ops).Inv
+    rw [current_mark_walks.2]; exact GcChan.run_inv maxQCapacity ops
+  exact ⟨h.taken_live, h.queued_live, h.fifo⟩
+
 /-- a queued value survives a collection that has no other root at all -/
 theorem queued_value_survives_collection (ops : List GcOp) (x : Nat) :
     let s := GcChan.run currentMarkItems maxQCapacity ops
